@@ -45,9 +45,47 @@ def gen_int_token(rng, big=False):
     return str(v).encode()
 
 
+def hard_decimal(rng):
+    """a long plain decimal on or right next to the midpoint of two adjacent doubles (exact expansion of the
+    midpoint, then digits that push it just above / just below / leave it a tie), optionally cut to a length at
+    which a converter that looks at a prefix only would decide wrongly"""
+    import struct
+    from fractions import Fraction
+    e = rng.choice([0, 0, 1, -1, 3, -4, 10, -10, 30, -30, 51, 52, -60])      # spacing <= 1: the midpoint has a fraction ending in 5
+    bits = ((1023 + e) << 52) | rng.getrandbits(52)
+    if rng.random() < 0.3:
+        bits = ((1023 + e) << 52) | rng.choice([0, 1, (1 << 52) - 1, 1 << 51])
+    x = struct.unpack(">d", struct.pack(">Q", bits))[0]
+    y = struct.unpack(">d", struct.pack(">Q", bits + 1))[0]
+    m = (Fraction(x) + Fraction(y)) / 2
+    ip = m.numerator // m.denominator
+    fr = m - ip
+    digs = []
+    while fr != 0 and len(digs) < 1200:
+        fr *= 10
+        d = fr.numerator // fr.denominator
+        digs.append(str(d))
+        fr -= d
+    frac = "".join(digs) or "0"
+    k = rng.random()
+    if frac[-1] != "5":
+        k = 0.0
+    if k < 0.3:
+        pass                                    # the tie itself: round half to even
+    elif k < 0.6:
+        frac = frac + "0" * rng.choice([0, 3, 20]) + rng.choice(["1", "0000001", "5"])       # just above
+    elif k < 0.9:
+        frac = frac[:-1] + str(int(frac[-1]) - 1) + "9" * rng.choice([1, 7, 30])              # just below (last digit is 5)
+    else:
+        frac = frac[:rng.choice([17, 40, 47, 48, 60])]                                        # a prefix
+    return (str(ip) + "." + frac).encode()
+
+
 def gen_frac_token(rng):
     """RFC 8259 number with a fraction and/or exponent"""
     sign = rng.choice([b"", b"", b"-"])
+    if rng.random() < 0.08:
+        return sign + hard_decimal(rng)
     r = rng.random()
     if r < 0.3:
         ip = b"0"
